@@ -1,3 +1,3 @@
 import BiomModel.Basic
 import BiomModel.Codec
-import BiomModel.C20
+import BiomModel.Sparse
